@@ -70,7 +70,7 @@ type harness struct {
 	*wiring
 	mch                chan imessage
 	activity           Activity
-	active             int32
+	active             int32 // number of tokens waiting inside the activity
 	cancellation       sync.Once
 	eventConsumers     []event.IConsumer
 	eventConsumersLock sync.RWMutex
@@ -82,7 +82,7 @@ type harness struct {
 func (node *harness) ConsumeEvent(ev event.IEvent) (result event.ConsumptionResult, err error) {
 	node.eventConsumersLock.RLock()
 	defer node.eventConsumersLock.RUnlock()
-	if atomic.LoadInt32(&node.active) == 1 {
+	if atomic.LoadInt32(&node.active) > 0 {
 		result, err = event.ForwardEvent(ev, &node.eventConsumers)
 	}
 	return
@@ -176,7 +176,7 @@ func (node *harness) run(ctx context.Context, sender tracing.ISenderHandle) {
 		case msg := <-node.mch:
 			switch m := msg.(type) {
 			case nextHarnessActionMessage:
-				atomic.StoreInt32(&node.active, 1)
+				atomic.AddInt32(&node.active, 1)
 				node.tracer.Send(ActiveBoundaryTrace{Start: true, Node: node.activity.Element()})
 				in := node.activity.NextAction(ctx, m.flow)
 				out := make(chan IAction, 1)
@@ -184,7 +184,7 @@ func (node *harness) run(ctx context.Context, sender tracing.ISenderHandle) {
 					select {
 					case rsp := <-in:
 						out <- rsp
-						atomic.StoreInt32(&node.active, 0)
+						atomic.AddInt32(&node.active, -1)
 						node.tracer.Send(ActiveBoundaryTrace{Start: false, Node: node.activity.Element()})
 					case <-bctx.Done():
 						return
